@@ -550,7 +550,23 @@ def assemble(unit, ex, extra_spec=""):
     # ---- callee contracts imported from another unit (modular verification: contracts, not bodies)
     for imp in unit.get("import_contracts", []):
         parts.append(import_contract_stubs(imp))
+    # a source may ask for its items to live in a module of their own (name clashes between /repo modules)
+    src_mod = {}
+    for s_ in unit["sources"]:
+        if s_.get("module"):
+            mp = s_.get("module_prelude", "")
+            if s_.get("module_prelude_file"):
+                mp += "\n" + open(os.path.join(d, s_["module_prelude_file"])).read()
+            src_mod[os.path.join(REPO, s_["file"])] = (s_["module"], mp)
+    cur_mod = None
     for it in ex["items"]:
+        m_ = src_mod.get(it["file"])
+        if (m_ and m_[0]) != cur_mod:
+            if cur_mod:
+                parts.append("} // mod " + cur_mod + "\n")
+            cur_mod = m_[0] if m_ else None
+            if cur_mod:
+                parts.append(f"pub mod {cur_mod} {{\nuse super::*;\nuse vstd::prelude::*;\n{m_[1]}\n")
         parts.append(f"//@@ item {it['file']}:{it['line']} {it['selector']}\n")
         txt = splice_item(it, contracts, unit["name"], used, canaries)
         if it["kind"] == "const" and it["name"] in unit.get("exec_consts", []):
@@ -559,6 +575,8 @@ def assemble(unit, ex, extra_spec=""):
             txt = "#[verifier::external_body]\n" + txt if it["name"] in unit.get("opaque_consts", []) else txt
         parts.append(txt)
         parts.append("//@@ end\n")
+    if cur_mod:
+        parts.append("} // mod " + cur_mod + "\n")
     # global vacuity guard: the trusted prelude and the specification must not prove `false` (this proof fn MUST FAIL)
     parts.append("//@@ " + unit["name"] + "|<prelude>|canary|0\nproof fn __vx_canary_prelude()\n    ensures false\n{}\n//@@ end\n")
     canaries.append("<prelude>::prelude")
@@ -726,7 +744,12 @@ def function_results(vres):
     for mod in smt.get("smt-run-module-times", []):
         for fb in mod.get("function-breakdown", []):
             name = fb["function"]
-            name = name.split("::", 1)[1] if "::" in name else name
+            parts_ = name.split("::")[1:] if "::" in name else [name]
+            # drop module prefixes: keep `Type::method` or the bare function name
+            if len(parts_) >= 2 and parts_[-2][:1].isupper():
+                name = parts_[-2] + "::" + parts_[-1]
+            else:
+                name = parts_[-1]
             prev = out.get(name)
             rec = {"success": fb.get("success", False), "time_us": fb.get("time-micros", 0), "rlimit": fb.get("rlimit", 0),
                    "mode": fb.get("mode:", fb.get("mode", ""))}
